@@ -36,6 +36,11 @@ Definition null : ptr := 0%nat.
 Definition head : ptr := 1%nat.
 Definition mk_node (serial : nat) (key : nat) : ptr := (2 + 8 * serial + key)%nat.
 Definition key_of (p : ptr) : Z := Z.of_nat ((p - 2) mod 8).
+(** serial number of a node = allocation count of its thread * 64 + thread id (at most 63 threads; 63 = the main
+    thread's pre-filled nodes), so nodes of different threads never collide *)
+Definition node_id (t ser : nat) (key : nat) : ptr := mk_node (ser * 64 + t) key.
+Definition owner_of (p : ptr) : nat := ((p - 2) / 8) mod 64.
+Definition ser_of (p : ptr) : nat := ((p - 2) / 8) / 64.
 
 Definition mptr := (ptr * bool)%type.      (* marked pointer *)
 
@@ -464,7 +469,7 @@ Fixpoint insert_loop {R} (fuel : nat) (s : TL) (key : Z) (new : ptr) (h : nat) (
   end.
 
 Definition op_insert {R} (fuel : nat) (s : TL) (k : nat) (h : nat) (cont : TL -> prog R) : prog R :=
-  let new := mk_node (tid s * 8 + ser s) k in
+  let new := node_id (tid s) (ser s) k in
   let s0 := mkTL (tid s) (fl s) (S (ser s)) in
   Act (a_st_unl new 1 1) (fun _ =>
     let (gnew, s1) := alloc1 s0 in
@@ -621,7 +626,7 @@ Definition thread_prog (fuel : nat) (t : nat) (os : list op) : Conc.thread G V e
   Act a_begin (fun _ => run_ops fuel (mkTL t (seq 0 NSLOTS) 0) os).
 
 (** *** initial state: the keys of [mask] linked with the given tower heights (done by the main thread, sequentially) *)
-Definition pre_node (k : nat) : ptr := mk_node (60 + k) k.
+Definition pre_node (k : nat) : ptr := node_id 63 k k.
 Definition g_empty : G := mkG (fun _ _ => (null, false)) (fun _ => 0) (fun _ => 1%nat) 5 0.
 
 (** link the prefilled nodes in increasing key order: at level l the successor of a node is the next prefilled node of
